@@ -44,7 +44,7 @@ def cases(tier):
     out = []
     for d in KINDS:
         for mode in ('first', 'forced'):
-            for fault in ('raise', 'late', 'mistyped', 'unserialisable', 'crash'):
+            for fault in ('none', 'raise', 'late', 'mistyped', 'unserialisable', 'crash'):
                 out.append((d, mode, fault))
     return out
 
@@ -98,7 +98,23 @@ def make_harness(case, tier):
             got = world.request(k, 'work')
             family.FAIL.pop(point, None)
             ctx.check_concrete(got[0] == 'exc', 'fault-propagates', dict(info, got=repr(got)[:200]))
+            if kind in ('dir', 'cont') and ctx.flag('fails_twice'):
+                family.FAIL[point] = boom
+                got = world.request(k, 'work')
+                family.FAIL.pop(point, None)
+                info['failed_twice'] = True
+                ctx.check_concrete(got[0] == 'exc', 'fault-propagates', dict(info, got=repr(got)[:200]))
             retry_same = ctx.flag('retry_on_same_object')
+        elif fault == 'none':
+            got = world.request(k, 'work')
+            ctx.check_concrete(got[0] == 'ok' and family.norm_input(got[1]) == expected, 'recovers', dict(info, got=repr(got)[:200]))
+            if kind in ('dir', 'cont', 'listnpy'):
+                # a (re)computed directory result holds exactly the files of that one run
+                import os
+                res = task.path / task.name_for_persistence
+                names_ = sorted(str(c.name) for c in res.iterdir())
+                want = {'dir': ['out.json'], 'cont': ['out.json', 'part0.json', 'part1.json'], 'listnpy': ['0.npy', '1.npy', '2.npy']}[kind]
+                ctx.check_concrete(names_ == want, 'visible=>complete', dict(info, entries=names_, expected=want))
         elif fault == 'mistyped':
             import taskchain.task as TT
             orig = type(task).run
